@@ -30,9 +30,46 @@ class NLink(Link):
     """an n-ary link: plain subclass of Link"""
 
 
+import itertools
+
+_SEQ = itertools.count()
+
+
+def _counting(base, name):
+    """a subclass of `base` whose instances record their creation order (observing, without a source hook,
+    the order in which a builder creates links)"""
+    def __init__(self, *a, **kw):
+        object.__setattr__(self, "_verif_seq", next(_SEQ))
+        base.__init__(self, *a, **kw)
+    return type(name, (base,), {"__init__": __init__})
+
+
 KINDS = {"D": DirectedEdge, "U": UnDirectedEdge, "T": TwoEndedLink, "D2": D2, "U2": U2, "T2": T2,
          "N": NLink}
 KIND_OF = {v: k for k, v in KINDS.items()}
+COUNTING = {k: _counting(v, "Counting" + v.__name__) for k, v in KINDS.items() if k != "N"}
+KIND_OF.update({v: k for k, v in COUNTING.items()})
+
+TRUTHY = [1, True, "x", [0], 2.5, -1]
+FALSY = [0, None, "", [], 0.0, False]
+
+
+def decode_adj(a):
+    rows, i = [], 0
+    while i < len(a):
+        n = a[i + 1]
+        rows.append((a[i], a[i + 2:i + 2 + n]))
+        i += 2 + n
+    return rows
+
+
+def decode_rows(b):
+    rows, i = [], 0
+    while i < len(b):
+        n = b[i]
+        rows.append(b[i + 1:i + 1 + n])
+        i += 1 + n
+    return rows
 
 
 def key(state) -> str:
@@ -175,7 +212,34 @@ class World:
         if op == "setapp":
             self.LAW[a[0]].applies_to = O(a[1])
             return []
+        if op in ("loaddict", "loadmat"):
+            from edgegraph.builder import adjlist, adjmatrix
+            try:
+                if op == "loaddict":
+                    adj = {O(key): [O(v) for v in vals] for key, vals in decode_adj(a)}
+                    self.last_input = adj
+                    u = adjlist.load_adj_dict(adj, linktype=COUNTING[k])
+                else:
+                    rows = [[(TRUTHY if cell else FALSY)[(i * 7 + j * 3 + cell) % 6] for j, cell in enumerate(row)]
+                            for i, row in enumerate(decode_rows(b))]
+                    side = [O(v) for v in a]
+                    self.last_input = (rows, side)
+                    u = adjmatrix.load_adj_matrix(rows, side, linktype=COUNTING[k])
+            finally:
+                self._adopt_new_links()
+            return [self._reg_universe(u, default_laws=True)]
         raise RuntimeError(f"executor: unknown op {op}")
+
+    def _adopt_new_links(self):
+        """register links created behind our back, in creation order"""
+        found = {}
+        for ob in self.O:
+            if ob is not None:
+                for lk in ob.links:
+                    if id(lk) not in self.lnum:
+                        found[id(lk)] = lk
+        for lk in sorted(found.values(), key=lambda x: getattr(x, "_verif_seq", 1 << 60)):
+            self._reg_link(lk)
 
     # -- projection through public accessors --------------------------------------------------
     def project(self) -> dict:
@@ -269,6 +333,22 @@ def alias_class(pre: dict, c: dict) -> str:
         L = c["b"][0]
         inuse = L != 0 and pre["app"][L - 1] != 0
         return f"unew:verts{len(a)}{'dup' if len(set(a)) < len(a) else ''},laws{'none' if L == 0 else 'inuse' if inuse else 'free'}"
+    if op == "loaddict":
+        rows = decode_adj(a)
+        vals = [v for _, vs in rows for v in vs]
+        selfe = any(key in vs for key, vs in rows)
+        rep = any(len(set(vs)) < len(vs) for _, vs in rows)
+        prior = pre["nl"] > 0
+        return (f"loaddict:{c['k']}:keys{len(rows)},vals{min(len(vals), 3)}{',self' if selfe else ''}{',repeat' if rep else ''}"
+                f"{',emptyrow' if any(not vs for _, vs in rows) else ''}{',prior' if prior else ''}")
+    if op == "loadmat":
+        rows = decode_rows(c["b"])
+        n = len(a)
+        ok = len(rows) == n and all(len(r) == n for r in rows)
+        diag = ok and any(rows[i][i] for i in range(n))
+        return (f"loadmat:{c['k']}:n{n},{'square' if ok else 'badshape-rows' + str(len(rows))}"
+                f"{',diag' if diag else ''}{',dupside' if len(set(a)) < len(a) else ''},cells{min(sum(map(sum, rows)), 3)}"
+                f"{',prior' if pre['nl'] > 0 else ''}")
     if op == "setlaws":
         k, L = a
         cur = pre["laws"][k - 1]
